@@ -1281,6 +1281,8 @@ val clause_true : (char list -> bool) -> (bool * char list) list -> bool
 
 val sxfm_sat : (char list -> bool) -> splot_doc -> bool
 
+val sx_safename : char list -> char list
+
 val sx_label : char list -> char list
 
 val card_star : z -> char list
